@@ -12,7 +12,7 @@ use tgv_core::{guard, json, Ctx, Engine, Failure, Tier, Value};
 use tgv_ide::c06::id_tokens;
 use tgv_ide::ws::Ws;
 
-use crate::refpos::RefLines;
+use crate::refpos::{RefLines, Unit};
 use crate::session::{uri_of, write_files, Session, SessionError};
 
 pub struct C09;
@@ -21,11 +21,16 @@ pub struct C09;
 pub struct LspWs {
     /// (file name, text); the first is the root
     pub files: Vec<(String, String)>,
+    /// index into CLIENT_ENCODINGS: what the client lists in `general.positionEncodings`
+    pub client_encodings: usize,
 }
+
+/// What a client may list as the position encodings it supports, in order of preference.
+pub const CLIENT_ENCODINGS: &[Option<&[&str]>] = &[None, Some(&["utf-8", "utf-16"]), Some(&["utf-16", "utf-8"]), Some(&["utf-32", "utf-16"]), Some(&["utf-16"])];
 
 impl LspWs {
     pub fn to_json(&self) -> Value {
-        json!({ "files": self.files, "witness": self.witness() })
+        json!({ "files": self.files, "client_encodings": self.client_encodings, "witness": self.witness() })
     }
     pub fn from_json(v: &Value) -> LspWs {
         LspWs {
@@ -33,10 +38,15 @@ impl LspWs {
                 .as_array()
                 .map(|a| a.iter().map(|p| (p[0].as_str().unwrap_or_default().to_string(), p[1].as_str().unwrap_or_default().to_string())).collect())
                 .unwrap_or_default(),
+            client_encodings: v["client_encodings"].as_u64().unwrap_or(0) as usize % CLIENT_ENCODINGS.len(),
         }
     }
     pub fn witness(&self) -> String {
-        self.files.iter().map(|(n, t)| format!("{n}: {}", t.replace('\r', "\\r").replace('\n', "\\n"))).collect::<Vec<_>>().join(" | ")
+        let files = self.files.iter().map(|(n, t)| format!("{n}: {}", t.replace('\r', "\\r").replace('\n', "\\n"))).collect::<Vec<_>>().join(" | ");
+        match CLIENT_ENCODINGS[self.client_encodings] {
+            None => files,
+            Some(list) => format!("client positionEncodings {list:?} | {files}"),
+        }
     }
     pub fn shrink(&self) -> Vec<LspWs> {
         let mut out = Vec::new();
@@ -115,9 +125,12 @@ pub fn workspaces(tier: Tier, mut f: impl FnMut(LspWs) -> bool) {
                             ta.truncate(ta.trim_end_matches(['\r', '\n', ';']).len());
                             tb.push_str("def btail : B1<9");
                         }
-                        let ws = LspWs { files: vec![("a.td".into(), ta), ("b.td".into(), tb), ("c é😀.td".into(), "class Cx;\n".into())] };
-                        if !f(ws) {
-                            return;
+                        // the units differ on lines with non-ASCII text only: every client list there, no list elsewhere
+                        for client_encodings in 0..if nonascii { CLIENT_ENCODINGS.len() } else { 1 } {
+                            let ws = LspWs { files: vec![("a.td".into(), ta.clone()), ("b.td".into(), tb.clone()), ("c é😀.td".into(), "class Cx;\n".into())], client_encodings };
+                            if !f(ws) {
+                                return;
+                            }
                         }
                     }
                 }
@@ -129,15 +142,21 @@ pub fn workspaces(tier: Tier, mut f: impl FnMut(LspWs) -> bool) {
 /// Reference conversion of an analysis range into the JSON the server must send.
 pub struct Mapper {
     pub texts: BTreeMap<String, (String, RefLines)>,
+    /// the unit of columns: the one the server announced in its initialize result (UTF-16 if none)
+    pub unit: Unit,
 }
 
 impl Mapper {
     pub fn new(files: &[(String, String)]) -> Mapper {
-        Mapper { texts: files.iter().map(|(p, t)| (p.clone(), (t.clone(), RefLines::new(t)))).collect() }
+        Mapper { texts: files.iter().map(|(p, t)| (p.clone(), (t.clone(), RefLines::new(t)))).collect(), unit: Unit::Utf16 }
+    }
+    pub fn with_unit(mut self, unit: Unit) -> Mapper {
+        self.unit = unit;
+        self
     }
     pub fn pos(&self, path: &str, off: usize) -> Value {
         let (t, l) = &self.texts[path];
-        let (line, ch) = l.position(t, off.min(t.len()));
+        let (line, ch) = l.position_in(t, off.min(t.len()), self.unit);
         json!({ "line": line, "character": ch })
     }
     pub fn range(&self, path: &str, r: TextRange) -> Value {
@@ -189,7 +208,7 @@ pub fn session_dir(tag: &str, shard: u64) -> PathBuf {
 pub fn eval_ws(w: &LspWs, dir: &PathBuf) -> Result<(Vec<(String, String)>, u64), SessionError> {
     write_files(dir, &w.files);
     let abs: Vec<(String, String)> = w.files.iter().map(|(n, t)| (dir.join(n).to_string_lossy().to_string(), t.clone())).collect();
-    let m = Mapper::new(&abs);
+    let mut m = Mapper::new(&abs);
     let root_path = abs[0].0.clone();
     let ide = Ws::new(&abs, &root_path);
     let a = ide.analysis();
@@ -203,7 +222,23 @@ pub fn eval_ws(w: &LspWs, dir: &PathBuf) -> Result<(Vec<(String, String)>, u64),
     };
 
     let t0 = std::time::Instant::now();
-    let mut s = Session::start(dir)?;
+    let offered = CLIENT_ENCODINGS[w.client_encodings];
+    let mut s = Session::start_with(dir, offered)?;
+    // the unit of every position exchanged in this session is the one the server announced, which is one the client listed
+    let announced = s.announced_encoding.clone();
+    let acceptable = match (&announced, offered) {
+        (None, _) => true,
+        (Some(a), None) => a == "utf-16",
+        (Some(a), Some(list)) => list.contains(&a.as_str()),
+    };
+    let unit = match Unit::of(announced.as_deref()) {
+        Some(u) if acceptable => u,
+        _ => {
+            problems.push(("announced-encoding".into(), format!("the client listed {offered:?}; the server announced positionEncoding {announced:?}")));
+            Unit::Utf16
+        }
+    };
+    m = m.with_unit(unit);
     let t1 = t0.elapsed();
     s.did_open(&w.files[0].0, &w.files[0].1)?;
     s.quiesce()?;
@@ -312,7 +347,7 @@ pub fn eval_ws(w: &LspWs, dir: &PathBuf) -> Result<(Vec<(String, String)>, u64),
         let edited = format!("//root\n\n{rest}");
         let mut abs2 = abs.clone();
         abs2[0].1 = edited.clone();
-        let m2 = Mapper::new(&abs2);
+        let m2 = Mapper::new(&abs2).with_unit(unit);
         let ide2 = Ws::new(&abs2, &root_path);
         let a2 = ide2.analysis();
         s.did_change(&w.files[0].0, &edited, 2)?;
@@ -352,7 +387,7 @@ impl Engine for C09 {
     fn rule(&self, tier: Tier) -> String {
         format!(
             "three-file workspaces: root a.td = prologue + include \"b.td\" + include of a file whose name has a blank and non-ASCII letters + every sequence of 1..={} of {} statements that use b's declarations; b.td = a longer, differently-lined prologue + all {} declarations or all but one; \
-             x {{ASCII, 'é😀' before every statement and inside a string}} x {{LF, CRLF}} x {{complete, or ending in an unterminated statement whose last token touches the end of the text (both files)}}; the root is opened in the real server (framed JSON-RPC over an in-memory pipe) and, one message at a time, \
+             x {{ASCII, 'é😀' before every statement and inside a string}} x {{LF, CRLF}} x {{a client that lists no position encodings; in the non-ASCII half also [utf-8, utf-16], [utf-16, utf-8], [utf-32, utf-16], [utf-16]}} x {{complete, or ending in an unterminated statement whose last token touches the end of the text (both files)}}; the root is opened in the real server (framed JSON-RPC over an in-memory pipe) and, one message at a time, \
              definition and references at the start and middle of every identifier of both files, documentSymbol, foldingRange, documentLink, inlayHint(whole file) per file and the published diagnostics are compared (the syntax errors of each file's own text, parsed independently, must be among the diagnostics published for that file); finally the root is edited so that every byte offset stays and every line number moves, and the diagnostics the client then holds are compared again. \
              non-trivial = every workspace (each has cross-file locations); distinct by construction.",
             tier.pick(2, 3),
@@ -363,7 +398,7 @@ impl Engine for C09 {
 
     fn assumptions(&self) -> Vec<String> {
         vec![
-            "expected spans come from the ide-level analysis of the same texts (C05/C13/C18 judge their content); this check judges only their expression in the named document's line/UTF-16 coordinates, by the reference mapper of C10".into(),
+            "expected spans come from the ide-level analysis of the same texts (C05/C13/C18 judge their content); this check judges only their expression in the named document's line/UTF-16 coordinates, by the reference mapper of C10, in the unit the server announced in its initialize result (UTF-16 when it announced none; an announcement the client did not list is a violation)".into(),
             "messages are sent one at a time to quiescence (hook H3 counters), so C08's schedules do not interfere".into(),
         ]
     }
